@@ -99,6 +99,22 @@ fn check_message(c: u8, n: u8, v: u16, mon: &mut Cc14Mon, rng: &mut Rng, hist: &
         );
         return;
     }
+    // "for both factory implementations as encoding target": the Structured encoding fed to a copy
+    // of the never-fresh scanner must be decoded exactly like the Raw one
+    {
+        let st: [StructuredShortMessage; 2] = m.to_short_messages();
+        let mut sc = mon.real;
+        let r = api("ControlChange14BitMessageScanner::feed", || (sc.feed(&st[0]), sc.feed(&st[1])));
+        // (the prior state may hold any MSB; the pair itself must be decoded)
+        if !matches!(r, Some((None, Some(x))) if x == m) {
+            crate::viol!(
+                rep,
+                "C07:scanner-does-not-invert-encoder:structured-encoding",
+                format!("feeding the StructuredShortMessage encoding of ({},{},{}) returned {:?}", c, n, v, r.map(|(a, b)| (a.is_some(), b.map(|x| c14m(&x))))),
+                rp.clone()
+            );
+        }
+    }
     // feed the encoding into the never-fresh scanner, preceded by junk
     let junk = rng.below(3);
     for _ in 0..junk {
